@@ -194,6 +194,10 @@ def resumeHead (s : St) : St :=
              aw := .contAll (some (t, sg)) (rest.map (·.1)) [] (rest.head?) }
   | [] => { s with outer := .resume, aw := .contAll none [] [] none }
 
+/-- `single_step`, quiet branch: the request that `apply_new_status` has just queued is taken back
+(`rposition` of the entry + `remove`) -/
+def unqueue (q : List (Tid × Nat)) (e : Tid × Nat) : List (Tid × Nat) := (q.reverse.erase e).reverse
+
 /-- tracees `cont_stopped(_ex)` still has to continue -/
 def contPending (s : St) (excl visited : List Tid) : List Tid :=
   (s.tbl.rows.filter (fun r => !r.st.isRunning && !excl.contains r.tid && !visited.contains r.tid)).map (·.tid)
@@ -215,7 +219,8 @@ def deliverOuter (s : St) (r : Option Reason) : St :=
     | some (.exit _) => die s "err:process-exit"
     | some .start => die s "panic:start-twice"
     | some (.sig p sg) =>
-      if isQuiet sg then { s with aw := .stepReq t sg } else { s with aw := .pokeInt3 a (some (.sig p sg)) }
+      if isQuiet sg then { s with queue := unqueue s.queue (t, sg), aw := .stepReq t sg }
+      else { s with aw := .pokeInt3 a (some (.sig p sg)) }
     | some (.nosuch _) => { s with aw := .pokeInt3 a none }
 
 /-- the group stop is over: open the latch, return to the caller -/
